@@ -35,6 +35,7 @@ require (
 	github.com/google/btree v1.1.3 // indirect
 	github.com/valyala/fastrand v1.1.0 // indirect
 	github.com/valyala/histogram v1.2.0 // indirect
+	golang.org/x/sync v0.12.0 // indirect
 )
 
 replace reduction.dev/reduction => /repo
